@@ -78,7 +78,14 @@ impl<W: AsyncWrite> AsyncWrite for BufWriter<W> {
             })
             .expect("Closure always return Ok");
 
-        (_, buf) = buf_try!(self.flush_if_needed().await, buf);
+        if written == 0 {
+            (_, buf) = buf_try!(self.flush_if_needed().await, buf);
+        } else {
+            // The bytes are accepted and must be reported as written. If this eager flush
+            // fails, the data stays in the buffer and the error shows up again at the next
+            // write or flush.
+            let _ = self.flush_if_needed().await;
+        }
 
         BufResult(Ok(written), buf)
     }
@@ -104,7 +111,14 @@ impl<W: AsyncWrite> AsyncWrite for BufWriter<W> {
             })
             .expect("Closure always return Ok");
 
-        (_, buf) = buf_try!(self.flush_if_needed().await, buf);
+        if written == 0 {
+            (_, buf) = buf_try!(self.flush_if_needed().await, buf);
+        } else {
+            // The bytes are accepted and must be reported as written. If this eager flush
+            // fails, the data stays in the buffer and the error shows up again at the next
+            // write or flush.
+            let _ = self.flush_if_needed().await;
+        }
 
         BufResult(Ok(written), buf)
     }
